@@ -48,6 +48,9 @@ CHECKS["C04"] = ("property-based testing with fault injection (proptest): pathol
 CHECKS["C13"] = ("metamorphic property-based testing (proptest): time reflection, power-of-two scaling, scalar-vs-vector tolerance, independent copies; bit-identity where the symmetry is exact in floating point",
          "Each generated problem is solved together with its transformed twin; the relations are exact in IEEE arithmetic (negation, multiplication by 2^k, duplication), so for explicit methods and user-Jacobian implicit ones any difference in a single bit is a counterexample.",
          "R4 only with first_step given; Radau/BDF under R4 and FD-Jacobian scaling only to tolerance (documented in DESIGN).", "DESIGN.md §4 C13")
+CHECKS["C01"] = ("property-based testing (proptest) against closed-form exact solutions: tolerance ladders, per-component bounds, RK4 convergence order",
+         "Problems are constructed from exact solutions (stacked closed-form blocks, time-warp, linear mixing) with an a-priori amplification bound kappa; every returned sample of every rung of a tolerance ladder is compared with the exact solution against C*kappa*naccpt*tolscale; decoupled problems pin per-component tolerances; RK4 is checked for fourth-order convergence. One algorithm-inherent finding (K1, vanishing embedded error estimate) is keyed narrowly and excluded.",
+         "C = 50 (max observed ratio 19 over 3e5 cases, typical < 0.2); Radau's documented internal tolerance transformation is modelled in the absolute-dominated mode.", "DESIGN.md §4 C01")
 PENDING = {}
 
 def main():
